@@ -268,6 +268,17 @@ def make_listener(run, lid):
         def addrmap_expired(self, name):
             self.events.append(('expired', name))
             run.sim.log('heard', lid, 'expired', name)
+            # a listener may look the name up from inside the notification: the mapping that has just
+            # expired (or was dropped) must not be returned any more
+            try:
+                still = run.am.find(name)
+            except KeyError:
+                still = None
+            if still is not None:
+                run.sim.probe('lookup-inside-expired-notification')
+                run.sim.fail('C20.expired-mapping-found-inside-its-expired-notification',
+                             'find(%r) inside addrmap_expired(%r) still returns %r' % (name, name, str(getattr(still, 'ip', still))))
+            run.sim.probe('lookup-inside-expired-notification')
 
     return Listener()
 
